@@ -165,6 +165,7 @@ Proof.
   apply run_ok_cons. split; [reflexivity|].
   apply run_ok_cons. split; [|reflexivity].
   simpl. rewrite Hff. simpl. rewrite Hv. simpl. rewrite updN_same. simpl.
+  rewrite N.eqb_refl. simpl.
   unfold present_allb. simpl. unfold in_dir at 1. rewrite N.eqb_refl. rewrite !updP_same. simpl.
   rewrite forallb_filter_dir. simpl. now rewrite Hd.
 Qed.
@@ -207,7 +208,7 @@ Proof. split; vm_compute; reflexivity. Qed.
 
 Definition durable_only (s : fs) : fs :=
   mkFs (fun ino => mkInode (idur (sino s ino)) (idur (sino s ino)) false)
-       (sdur s) (sdur s) [] (fun _ => None) (snext s).
+       (sdur s) (sdur s) [] (fun _ => None) (snext s) (sgen s).
 
 Lemma crash_durable_only s : crash s (durable_only s).
 Proof. unfold crash, durable_only. simpl. repeat split; auto. Qed.
@@ -365,10 +366,11 @@ Lemma harmless_step s c :
   harmless c -> svol (step s c) = svol s /\ forall j, ivol (sino (step s c) j) = ivol (sino s j).
 Proof.
   intro H. destruct H; simpl; auto.
-  destruct (sfd s fd) as [[i o|d]|]; simpl; auto.
-  split; [reflexivity|]. intro j. destruct (N.eq_dec j i) as [->|Hn].
-  - now rewrite updN_same.
-  - now rewrite updN_other.
+  destruct (sfd s fd) as [[i o|d g]|]; simpl; auto.
+  - split; [reflexivity|]. intro j. destruct (N.eq_dec j i) as [->|Hn].
+    + now rewrite updN_same.
+    + now rewrite updN_other.
+  - destruct (N.eqb g (sgen s d)); simpl; auto.
 Qed.
 
 Lemma harmless_run l : forall s,
@@ -491,10 +493,11 @@ Proof.
            inversion H2; subst. apply Hlt in H1. lia.
         -- rewrite updP_other in H1, H2 by assumption. eauto.
   - destruct (svol s p); simpl; split; assumption.
-  - destruct (sfd s fd) as [[i o|d]|]; simpl; split; assumption.
-  - destruct (sfd s fd) as [[i o|d]|]; simpl; split; assumption.
-  - destruct (sfd s fd) as [[i o|d]|]; simpl; split; assumption.
-  - destruct (sfd s fd) as [[i o|d]|]; simpl; split; assumption.
+  - destruct (sfd s fd) as [[i o|d g]|]; simpl; split; assumption.
+  - destruct (sfd s fd) as [[i o|d g]|]; simpl; split; assumption.
+  - destruct (sfd s fd) as [[i o|d g]|]; simpl; split; assumption.
+  - destruct (sfd s fd) as [[i o|d g]|]; simpl; try (split; assumption).
+    destruct (N.eqb g (sgen s d)); simpl; split; assumption.
   - destruct (svol s src) eqn:E; simpl; [|split; assumption]. split.
     + intros q i Hv. destruct (path_dec q dst) as [->|Hn].
       * rewrite updP_same in Hv. inversion Hv; subst. eauto.
@@ -520,6 +523,12 @@ Proof.
       destruct (path_dec q1 p) as [->|Hn1]; [rewrite updP_same in H1; discriminate|].
       destruct (path_dec q2 p) as [->|Hn2]; [rewrite updP_same in H2; discriminate|].
       rewrite updP_other in H1, H2 by assumption. eauto.
+  - split.
+    + intros q i Hv. destruct (in_dir d q); [discriminate|eauto].
+    + intros q1 q2 i H1 H2. destruct (in_dir d q1); [discriminate|]. destruct (in_dir d q2); [discriminate|eauto].
+  - split.
+    + intros q i Hv. destruct (in_dir d q); [discriminate|eauto].
+    + intros q1 q2 i H1 H2. destruct (in_dir d q1); [discriminate|]. destruct (in_dir d q2); [discriminate|eauto].
 Qed.
 
 Theorem wf_reachable t : wf (run t fs_empty).
@@ -540,3 +549,36 @@ Example kill_anywhere_example :
   read (kill (run (firstn 7 (local_l0 3 4 1 5 6 3 [100; 6; 4])) s0)) (mkPath 1 5 (CLtx 0 0 3 3))
     = Some [W 0 100; W 100 6; W 106 4].
 Proof. split; [apply wf_reachable|]. vm_compute. repeat split; reflexivity. Qed.
+
+(** ** Directories are objects: a stale directory descriptor flushes nothing *)
+
+Lemma stale_dir_fsync_noop s fd d g :
+  sfd s fd = Some (FDir d g) -> g <> sgen s d -> step s (Fsync fd) = s.
+Proof. intros H Hn. simpl. rewrite H. apply N.eqb_neq in Hn. now rewrite Hn. Qed.
+
+Lemma mkdir_retires_handles s d fd g :
+  sfd s fd = Some (FDir d g) -> g = sgen s d ->
+  step (step s (Mkdir d)) (Fsync fd) = step s (Mkdir d).
+Proof.
+  intros H ->. apply (stale_dir_fsync_noop _ fd d (sgen s d)).
+  - exact H.
+  - simpl. rewrite updN_same. lia.
+Qed.
+
+(** the escaped mutant's trace shape: a directory descriptor opened once and
+    cached; after the directory is removed and re-created the publish is
+    fsynced through the cached descriptor: rejected at the ack (reason 5);
+    re-opening the directory makes it accepted *)
+Example stale_dir_handle_rejected :
+  let f n := mkPath 1 n (CLtx 0 0 n n) in
+  let t n := mkPath 1 (100 + n) CTmp in
+  let r1 := mkPath 2 1 (CLtx 1 0 1 1) in
+  let pub fd a b := [Creat fd a true; Write fd 10; Fsync fd; Close fd; Rename a b] in
+  let before := OpenDir 9 1 :: pub 5 (t 1) (f 1) ++ [Fsync 9; Ack (f 1)]
+                ++ pub 5 (mkPath 2 101 CTmp) r1 ++ [OpenDir 7 2; Fsync 7; Close 7; Ack r1] in
+  let reset := [Unlink (f 1); Rmdir 1; Mkdir 1] in
+  publish_ok (before ++ reset) = true /\
+  fst (check 1 m_init (before ++ reset ++ pub 5 (t 2) (f 2) ++ [Fsync 9; Ack (f 2)])) = (27, R_ACK_NOT_DURABLE) /\
+  publish_ok (before ++ reset ++ pub 5 (t 2) (f 2) ++ [OpenDir 8 1; Fsync 8; Ack (f 2)]) = true /\
+  snd (fst (check 1 m_init (before ++ [Rmdir 1]))) = R_DIR_REPLACED_LIVE.
+Proof. vm_compute. repeat split; reflexivity. Qed.
